@@ -73,7 +73,7 @@ class Session:
         if op_kind == "step" and (outcome == "ok" or stepped):
             reinit |= set(refs)
         if op_kind == "step" and outcome == "ok":
-            stepped |= {r for r in refs if type(self.els[r])._states}
+            stepped |= {r for r in refs if "states" in dyn.var_layout(self.U.spec_of(r))}
         for r in reinit:
             self.inited_since[r] = True
         for r in stepped:
@@ -92,7 +92,9 @@ class Session:
         out = []
         for r in refs:
             el = self.els[r]
-            decl = {g: bool(getattr(type(el), "_" + g)) for g in GROUPS}
+            # which variable groups an element has is decided by its kind in the universe spec (which
+            # constructor was called), never by the library's own class-level declarations
+            decl = {g: g in dyn.var_layout(self.U.spec_of(r)) for g in GROUPS}
             for g in GROUPS:
                 if decl[g] and getattr(el, g) is None:
                     out.append(("uninitialised", r))
@@ -230,7 +232,7 @@ class Session:
                     if not isinstance(v, T):
                         return
                     d[k] = v
-            if any(getattr(type(e2), "_" + g) for g in GROUPS) and not d:
+            if dyn.var_layout(self.U.spec_of(r)) and not d:
                 return  # an uninitialised neighbour: nothing to compare against
             cur[r] = d
         U2, net2 = dyn.build(self.uspec, self.build_ops)
@@ -371,7 +373,7 @@ class Session:
         need = 0
         for r in refs:
             el = self.els[r]
-            if type(el)._states and el.next_states is not None:
+            if "states" in dyn.var_layout(self.U.spec_of(r)) and el.next_states is not None:
                 need += sum(int(v.numel()) for v in el.next_states.values() if hasattr(v, "numel"))
         have = sum(F.numel_out(i) for i in range(F.n_out()))
         kw = self.compile_kwargs(op, self.T_sym)
